@@ -396,6 +396,97 @@ func c10(c *Ctx) {
 		os.RemoveAll(dir)
 	}
 
+	// cross ring: which directory supplies the magefiles when the platform is given by -goos/-goarch (the choice between
+	// a magefiles directory and tagged files beside it is made for that platform, like the selection itself); observed
+	// through the "found magefiles:" line of `mage -debug -goos X -goarch Y -compile out`
+	mkTagged := func(name string) c10File {
+		id := strings.NewReplacer(".", "_", "-", "_").Replace(strings.TrimSuffix(name, ".go"))
+		return c10File{name: name, pkg: "main", expr: &bexpr{K: "tag", T: "mage"}, src: "//go:build mage\n\npackage main\n\nfunc T_" + id + "() {}\n"}
+	}
+	mkPlain := func(name string) c10File {
+		id := strings.NewReplacer(".", "_", "-", "_").Replace(strings.TrimSuffix(name, ".go"))
+		return c10File{name: name, pkg: "main", src: "package main\n\nfunc T_" + id + "() {}\n"}
+	}
+	otherOS := "windows"
+	if runtime.GOOS == "windows" {
+		otherOS = "linux"
+	}
+	for i := 0; i < np+2; i++ {
+		dir := filepath.Join(c.Tmp, fmt.Sprintf("c10x%d", i))
+		var files, sub []c10File
+		goos, goarch := platsOS[2+r.Intn(len(platsOS)-2)], platsArch[r.Intn(len(platsArch))]
+		switch i {
+		case 0: // the only tagged file beside the magefiles directory is for the host: for the cross target the directory is used
+			files, sub = []c10File{mkTagged("build_" + runtime.GOOS + ".go"), mkPlain("lib.go")}, []c10File{mkPlain("targets.go")}
+			goos, goarch = otherOS, "amd64"
+		case 1: // … is for the other platform: for the cross target it is a magefile and the directory is not used
+			files, sub = []c10File{mkTagged("build_" + otherOS + ".go"), mkPlain("lib.go")}, []c10File{mkPlain("targets.go")}
+			goos, goarch = otherOS, "amd64"
+		default:
+			files = genDirFiles(r, 2+r.Intn(5), true)
+			if r.Chance(2, 3) {
+				sub = genDirFiles(r, 1+r.Intn(4), true)
+			}
+		}
+		fm := map[string]string{"go.mod": goMod("c10x")}
+		for _, f := range files {
+			fm[f.name] = f.src
+		}
+		for _, f := range sub {
+			fm["magefiles/"+f.name] = strings.Replace(f.src, "func T_", "func S_", 1)
+		}
+		writeFiles(dir, fm)
+		env := baseEnv(home)
+		if eo := envOS[r.Intn(len(envOS)-1)]; eo != "" {
+			env = append(env, "GOOS="+eo)
+		}
+		argv := []string{"-debug"}
+		if goos != "" {
+			argv = append(argv, "-goos", goos)
+		}
+		if goarch != "" {
+			argv = append(argv, "-goarch", goarch)
+		}
+		out := filepath.Join(c.Tmp, "c10x.out")
+		argv = append(argv, "-compile", out)
+		rr := runCmd(dir, env, mageBin, argv...)
+		os.Remove(out)
+		os.Remove(out + ".exe")
+		in := J{"op": "c10.select", "mode": "choose", "files": filesJSON(files), "goos": goos, "goarch": goarch, "host": host, "broken": false}
+		if sub != nil {
+			in["sub"] = filesJSON(sub)
+		} else {
+			in["sub"] = nil
+		}
+		impl := J{}
+		found := ""
+		for _, l := range strings.Split(rr.stderr, "\n") {
+			if k := strings.Index(l, "found magefiles: "); k >= 0 {
+				found = strings.TrimSpace(l[k+len("found magefiles: "):])
+				break
+			}
+		}
+		switch {
+		case found != "":
+			names := []string{}
+			uses := false
+			for _, pth := range strings.Split(found, ", ") {
+				if strings.Contains(filepath.ToSlash(pth), "magefiles/") {
+					uses = true
+				}
+				names = append(names, filepath.Base(pth))
+			}
+			sort.Strings(names)
+			impl["files"], impl["uses"] = names, uses
+		case strings.Contains(rr.stderr, "No .go files marked with the mage build tag"):
+			impl["files"], impl["uses"] = []string{}, false
+		default:
+			impl["error"] = strings.TrimSpace(rr.stderr)
+		}
+		c.Emit(in, impl, "ring=cross", "flagos="+goos, "flagarch="+goarch, fmt.Sprintf("sub=%v", sub != nil))
+		os.RemoveAll(dir)
+	}
+
 	// -compile ring: the platform of the output is the flag's or the host's, never the caller's GOOS/GOARCH; judged by
 	// the executable format of the produced file (ELF / PE / Mach-O and the machine field)
 	ncomp := 2
